@@ -100,7 +100,7 @@ def obligations(cx):
     ctrm = {'Membrane.get_penetrant_data': CM.penetrant_data_contract(1, False), 'numpy.linalg.lstsq': CM.lstsq_contract}
     ps = cx.explore(call(src, 'Membrane.calculate_activation_energy', [c1], self_obj=mem), contracts=ctrm)
     all_raise(cx, "incomplete.single-experiment-without-activation-energy", ps, ERR, function='Membrane.calculate_activation_energy')
-    ctrm = {'Membrane.get_penetrant_data': CM.penetrant_data_contract(1, False), 'min(key=)': CM.min_key_contract, 'numpy.searchsorted': CM.searchsorted_contract}
+    ctrm = {'Membrane.get_penetrant_data': CM.penetrant_data_contract(1, False), 'min(key=)': CM.min_key_contract, 'numpy.searchsorted': CM.searchsorted_contract, 'numpy.linalg.lstsq': CM.lstsq_contract}
     ps = cx.explore(call(src, 'Membrane.get_permeance', [], dict(temperature=Tt, component=c1), self_obj=mem), contracts=ctrm, pre=[Tt > 0])
     # away from the experiment's temperature every path raises: a path that returns normally (or leaves in another way) implies T == T_exp
     x0 = app('xT', lift(0), *flatten(c1.f['name']))
